@@ -5,6 +5,7 @@ import ast
 REGISTRY = {}  # (relpath, qualname) -> Contract
 BY_PROPERTY = {}  # property id -> [Contract]
 LEMMAS = {}  # property id -> [Lemma]
+LOOP_SPECS = {}  # (relpath, qualname) -> {variable name: shape}  loop-carried state of loops over symbolic collections ("__while__": True enables the rule for while loops)
 
 
 class Clause:
@@ -57,6 +58,7 @@ class Contract:
         self.variants = None  # list of (variant label, dict of param-type overrides)
         self.pure = False
         self.timeout_ms = None
+        self.scope = None  # set of property ids: used modularly at call sites only while a contract of one of these properties is verified
         key = (file, func)
         REGISTRY[key] = self
         for p in self.props:
@@ -115,6 +117,14 @@ class Contract:
         self.modifies_.extend(paths)
         self.modifies_.extend(typed.keys())
         self.modifies_types.update(typed)
+        return self
+
+    def loops(self, while_rule=False, **carried):
+        """Invariant of the loops over collections of symbolic size in this function: the shape of every loop-carried variable."""
+        spec = dict(carried)
+        if while_rule:
+            spec["__while__"] = True
+        LOOP_SPECS[self.key] = spec
         return self
 
     def check(self, label, fn):
